@@ -198,7 +198,7 @@ func (w *world) close() {
 
 func keep(name string) bool {
 	return strings.HasPrefix(name, "rooms.") || strings.HasPrefix(name, "apply.") || strings.HasPrefix(name, "nspstore.") ||
-		name == "emit.from" || name == "reset" || name == "quiesce" || name == "note"
+		name == "emit.from" || name == "bc.intent" || name == "reset" || name == "quiesce" || name == "note"
 }
 
 type env struct {
@@ -266,6 +266,25 @@ func (e *env) history(rng *rand.Rand, nops int) {
 	}
 	io := w.srv.IO
 	var desc []string
+	// operators that are kept and derived from, with the selection each one stands for
+	type kept struct {
+		op   *sio.BroadcastOperator
+		T, E []string
+		from string
+	}
+	var pool []kept
+	union := func(a []string, b ...string) []string {
+		m := map[string]bool{}
+		for _, x := range append(append([]string{}, a...), b...) {
+			m[x] = true
+		}
+		out := []string{}
+		for x := range m {
+			out = append(out, x)
+		}
+		sort.Strings(out)
+		return out
+	}
 	for i := 0; i < nops; i++ {
 		var live []string
 		for _, s := range w.order {
@@ -282,7 +301,39 @@ func (e *env) history(rng *rand.Rand, nops int) {
 		if rng.Intn(4) == 0 {
 			T = append(T, live[rng.Intn(len(live))]) // somebody's id room as a target
 		}
-		switch op := rng.Intn(11); op {
+		switch op := rng.Intn(14); op {
+		case 11: // keep an operator
+			if rng.Intn(2) == 0 {
+				pool = append(pool, kept{op: io.To(rooms(T...)...), T: union(T), E: []string{}})
+				desc = append(desc, fmt.Sprint("keep nsp.to", T))
+			} else {
+				pool = append(pool, kept{op: sock.Broadcast(), T: []string{}, E: []string{s}, from: s})
+				desc = append(desc, fmt.Sprint("keep sock.broadcast ", s[:4]))
+			}
+		case 12: // derive a child from a kept operator (the parent stays in use)
+			if len(pool) > 0 {
+				p := pool[rng.Intn(len(pool))]
+				r := named[rng.Intn(3)]
+				if rng.Intn(2) == 0 {
+					pool = append(pool, kept{op: p.op.Except(sio.Room(r)), T: p.T, E: union(p.E, r), from: p.from})
+					desc = append(desc, fmt.Sprint("derive except ", r))
+				} else {
+					pool = append(pool, kept{op: p.op.To(sio.Room(r)), T: union(p.T, r), E: p.E, from: p.from})
+					desc = append(desc, fmt.Sprint("derive to ", r))
+				}
+			}
+		case 13: // emit through a kept operator: it must still select what it was built for
+			if len(pool) > 0 {
+				p := pool[rng.Intn(len(pool))]
+				if p.from == "" || alive[p.from] {
+					desc = append(desc, fmt.Sprint("emit kept", p.T, p.E))
+					if p.from != "" {
+						vtrace.Emit("emit.from", "sid", p.from)
+					}
+					vtrace.Emit("bc.intent", "T", p.T, "E", p.E)
+					p.op.Emit("ev", i)
+				}
+			}
 		case 0, 1:
 			rs := pick(rng, named)
 			if len(rs) == 0 {
@@ -341,6 +392,75 @@ func (e *env) history(rng *rand.Rand, nops int) {
 	e.w.Write(vtrace.Take())
 	e.res.Case(strings.Join(desc, ";"), true)
 	e.res.Sample(desc)
+}
+
+// operator lineages: parents stay in use after children were derived from them
+func (e *env) lineage() {
+	id := e.begin("lineage")
+	vtrace.Take()
+	w, err := newWorld(3)
+	if err != nil {
+		e.res.Inconclusive("rig", err.Error(), id)
+		return
+	}
+	defer w.close()
+	recs := vtrace.Take()
+	e.w.Write(append([]vtrace.Rec{{"ev": "reset", "scenario": id, "cfg": "lineage"}}, recs...))
+	s1, s2, s3 := w.order[0], w.order[1], w.order[2]
+	w.socks[s1].Join("a")
+	w.socks[s2].Join("a", "b")
+	w.socks[s3].Join("b", "c")
+	type kept struct {
+		op   *sio.BroadcastOperator
+		T, E []string
+		from string
+	}
+	set := func(a []string, b ...string) []string {
+		m := map[string]bool{}
+		for _, x := range append(append([]string{}, a...), b...) {
+			m[x] = true
+		}
+		out := []string{}
+		for x := range m {
+			out = append(out, x)
+		}
+		sort.Strings(out)
+		return out
+	}
+	io := w.srv.IO
+	bases := []kept{
+		{op: io.To("a"), T: []string{"a"}, E: []string{}},
+		{op: io.Except("a"), T: []string{}, E: []string{"a"}},
+		{op: w.socks[s1].Broadcast(), T: []string{}, E: []string{s1}, from: s1},
+		{op: w.socks[s2].To("b"), T: []string{"b"}, E: []string{s2}, from: s2},
+		{op: w.socks[s3].Except("a"), T: []string{}, E: set([]string{s3}, "a"), from: s3},
+	}
+	n := 0
+	for _, b := range bases {
+		fam := []kept{b}
+		for gen := 0; gen < 2; gen++ {
+			cur := append([]kept{}, fam...)
+			for _, p := range cur {
+				for _, r := range []string{"b", "c"} {
+					fam = append(fam, kept{op: p.op.Except(sio.Room(r)), T: p.T, E: set(p.E, r), from: p.from})
+					fam = append(fam, kept{op: p.op.To(sio.Room(r)), T: set(p.T, r), E: p.E, from: p.from})
+				}
+			}
+		}
+		// every member of the family - parents included - must still select what it was built for
+		for _, k := range fam {
+			if k.from != "" {
+				vtrace.Emit("emit.from", "sid", k.from)
+			}
+			vtrace.Emit("bc.intent", "T", k.T, "E", k.E)
+			k.op.Emit("ev", n)
+			n++
+		}
+	}
+	vtrace.Emit("quiesce")
+	e.w.Write(vtrace.Take())
+	e.res.Case("lineage", true)
+	e.res.Count("lineage_emits", n)
 }
 
 // K4 (recorded finding): a socket that left the room named after its id receives its own broadcast
@@ -504,6 +624,7 @@ func TestC04(t *testing.T) {
 		e.window(m)
 	}
 	e.joinRace()
+	e.lineage()
 	e.k4()
 	res.Scenarios = e.scen
 	w.Close()
